@@ -3,8 +3,11 @@ CONSTANTS
   Eps = {e1, e2, e3}
   MaxNotes = 5
   None = None
+  Calls = {}
+  GateBySubscription = FALSE
 SYMMETRY Perms
 INVARIANT NoViolation
 INVARIANT QuietOK
 INVARIANT Structural
+INVARIANT NoDeadDispatch
 CHECK_DEADLOCK FALSE
